@@ -61,23 +61,45 @@ def S2_N11_commit(ctx):
                 if present is False:
                     return l == ('const', '0_u64')
                 return False
-            cmp_all = [a for a in p.events if a.kind == 'atom' and a.d['term'][0] == 'discr' and a.d['term'][1][0] == 'call' and a.d['term'][1][1].endswith('::cmp')
-                       and is_field(strip(a.d['term'][1][2][0]), 'TxEnv.nonce')]
-            cmpa = [a for a in cmp_all if expected_ok(strip(a.d['term'][1][2][1]))]
-            if present is None or len(cmpa) != len(cmp_all):
+            # how tx.nonce relates to the expected nonce on this path, however the comparison is spelled
+            # (`cmp` + match on Ordering, ==, !=, <, > ...): (relation with tx.nonce on the left, event index, expected-side ok)
+            rels = []
+            for i_a, a in enumerate(p.events):
+                if a.kind != 'atom':
+                    continue
+                t = a.d['term']
+                if t[0] == 'discr' and t[1][0] == 'call' and t[1][1].endswith('::cmp') and len(t[1][2]) == 2:
+                    x, y = strip(t[1][2][0]), strip(t[1][2][1])
+                    o = a.d['outcome']
+                    m = {'Equal': 'Eq', 'Greater': 'Gt', 'Less': 'Lt', '!Equal': 'Ne'}.get(o)
+                    if is_field(x, 'TxEnv.nonce') and m:
+                        rels.append((m, i_a, expected_ok(y)))
+                    elif is_field(y, 'TxEnv.nonce') and m:
+                        rels.append((CMP_FLIP[m], i_a, expected_ok(x)))
+                    continue
+                n_ = norm_cmp(a)
+                if n_:
+                    op, l, r = n_
+                    if (r[0] == 'const' and 'MAX' in r[1]) or (l[0] == 'const' and 'MAX' in l[1]):
+                        continue
+                    if is_field(l, 'TxEnv.nonce'):
+                        rels.append((op, i_a, expected_ok(r)))
+                    elif is_field(r, 'TxEnv.nonce'):
+                        rels.append((CMP_FLIP[op], i_a, expected_ok(l)))
+            if present is None or any(not okx for _, _, okx in rels):
                 bad.append((p, 'expected nonce is not the committed account nonce (0 when the account is absent)'))
                 continue
-            if cmpa:
+            if rels:
                 n_expected[present] += 1
             both_max = holds_rel(p, len(p.events), lambda op, l, r: op == 'Eq' and is_field(l, 'TxEnv.nonce') and r[0] == 'const' and 'MAX' in r[1]) and \
                 holds_rel(p, len(p.events), lambda op, l, r: op == 'Eq' and expected_ok(l) and r[0] == 'const' and 'MAX' in r[1])
             if kind == 'Committed':
-                if both_max or not cmpa or cmpa[0].d['outcome'] != 'Equal':
+                if both_max or not any(m == 'Eq' for m, _, _ in rels):
                     bad.append((p, 'committed without tx.nonce == committed nonce (or with the MAX/MAX overflow case)'))
-                if commits and idx_of(p, commits[0]) < idx_of(p, cmpa[0]) if cmpa else False:
+                if commits and rels and idx_of(p, commits[0]) < max(i_a for _, i_a, _ in rels):
                     bad.append((p, 'state.commit before the nonce decision'))
             elif kind == 'NeedsSequentialFallback':
-                if not (both_max or (cmpa and cmpa[0].d['outcome'] in ('Greater', 'Less'))):
+                if not (both_max or any(m in ('Gt', 'Lt', 'Ne') for m, _, _ in rels)):
                     bad.append((p, 'fallback without a nonce mismatch'))
             elif kind in ('Err', 'Err?'):
                 pass
